@@ -486,16 +486,16 @@ func (e *c06Env) genCall(t *rapid.T, st [2]*tokenState) *c06Call {
 // oracle
 
 type c06Outcome struct {
-	ok, partial, movedOng bool
+	ok, partial, movedOng, panicked bool
 	tag                   string
 }
 
 func (e *c06Env) check(t *rapid.T, c *c06Call, total [2]*big.Int, pre, post [2]*tokenState, res []byte, err error, at string) c06Outcome {
 	var out c06Outcome
 	desc := e.describe(c) + at
-	if fix.IsPanic(err) {
-		t.Fatalf("C06: native call panicked instead of returning an error: %s: %v", desc, err)
-	}
+	// a recovered panic is judged like any other failed call (the statement is about balances; "never
+	// panics" is C12's subject) but it is counted, so that it shows in the evidence
+	out.panicked = fix.IsPanic(err)
 	out.ok = err == nil && bytes.Equal(res, []byte{1})
 	out.tag = "err"
 	if out.ok {
@@ -553,7 +553,9 @@ func (e *c06Env) check(t *rapid.T, c *c06Call, total [2]*big.Int, pre, post [2]*
 		case "transferFrom":
 			s := c.St[0]
 			pa, na := pre[called].allow(s.From, c.Sender), post[called].allow(s.From, c.Sender)
-			if a != s.From || !signed[c.Sender] || pa.Cmp(d) < 0 || new(big.Int).Sub(pa, na).Cmp(d) != 0 {
+			ownerWitnessed := a == s.From && signed[a]
+			spentAllowance := a == s.From && signed[c.Sender] && pa.Cmp(d) >= 0 && new(big.Int).Sub(pa, na).Cmp(d) == 0
+			if !ownerWitnessed && !spentAllowance {
 				t.Fatalf("C06: %s debited %v e-9 %s from %s: from=%s spender=%s witnessed-by-spender=%v allowance %v -> %v; call %s",
 					c.Op, d, c06TokName[called], e.label[a], e.label[s.From], e.label[c.Sender], signed[c.Sender], pa, na, desc)
 			}
@@ -639,7 +641,7 @@ func c06Run(t *testing.T, prof string, netID, height uint32) {
 		ev.Floor("mainnet:step:post-deadline", "mainnet:step", 0.10)
 	}
 
-	harn.CheckSteps(t, 30, 1500, 240000, func(t *rapid.T) {
+	harn.CheckSteps(t, 30, 1000, 40000, func(t *rapid.T) {
 		n := e.ch.NewNative()
 		n.Height = e.height
 		// start time: right after genesis, around the holder deadline, or well after it
@@ -672,6 +674,9 @@ func c06Run(t *testing.T, prof string, netID, height uint32) {
 			ev.Class(c.Op + ":" + o.tag)
 			ev.Class("mode:" + c.Mode)
 			ev.Class("mode:" + c.Mode + ":" + o.tag)
+			if o.panicked {
+				ev.Class("call:recovered-panic")
+			}
 			if c06Family(c.Op) == "transfer" {
 				ev.Class("transfer*")
 				if o.partial {
